@@ -166,6 +166,16 @@ func genC05() *rapid.Generator[*Spec] {
 		if hasSet {
 			kinds = append(kinds, "settwice")
 		}
+		if !r.ConstOK(D) {
+			// not writable inside wire.Value (e.g. a generic type with two type arguments)
+			var ks []string
+			for _, k := range kinds {
+				if k != "value" {
+					ks = append(ks, k)
+				}
+			}
+			kinds = ks
+		}
 		kind := x.pick(kinds, "dupkind")
 		placements := []string{"direct", "direct", "inline", "named"}
 		var refs []Ref
@@ -480,6 +490,11 @@ func genC08() *rapid.Generator[*Spec] {
 				break
 			}
 			used := &s.Items[v.FuncItems[x.intn(0, len(v.FuncItems)-1, "twinof")]]
+			if r := []rune(used.Name); len(r) == 0 || !(r[0] >= 'A' && r[0] <= 'Z') {
+				kind = "func"
+				in.Args = append(in.Args, RItem(addItem(s, Item{Kind: "func", Pkg: 0, Name: x.fresh("ProvideU"), Out: freshT()})))
+				break
+			}
 			s.Pkgs = append(s.Pkgs, Pkg{Dir: x.fresh("twin"), Name: s.Pkgs[used.Pkg].Name})
 			np := len(s.Pkgs) - 1
 			if s.ImportAlias == nil {
